@@ -204,6 +204,15 @@ func runC42(c *Ctx) {
 	}
 	c.Floor(r1, 1)
 
+	// the independent-commit reduction removes candidates while it walks over them
+	const r3 = "cursor-recomputed-after-removal"
+	for _, fi := range closure {
+		if !p.isTestFile(fi.Decl.Pos()) {
+			CursorOverShrinkingSlice(c, r3, fi)
+		}
+	}
+	c.Floor(r3, 1)
+
 	const r2 = "ancestor-by-hash"
 	hashT := p.lookupType("plumbing", "Hash")
 	for _, n := range []string{objShort + ".(*Commit).IsAncestor", "git.isFastForward"} {
